@@ -430,15 +430,27 @@ inductive Region where
   | global | stack
   deriving DecidableEq, Repr, Inhabited
 
+/-- `bsearch` specialised to allocation arrays: first index in `[lo, hi)` whose base is `≤ addr`
+    (`le = true`, descending array) resp. `> addr` (`le = false`, ascending array). -/
+def bsearchBase (a : Array Alloc) (addr : Nat) (le : Bool) : (fuel lo hi : Nat) → Nat
+  | 0, lo, _ => lo
+  | f+1, lo, hi =>
+    if lo < hi then
+      let mid := (lo + hi) / 2
+      let b := (a.getD mid default).base
+      if (if le then b ≤ addr else b > addr) then bsearchBase a addr le f lo mid
+      else bsearchBase a addr le f (mid + 1) hi
+    else lo
+
 /-- The live allocation that contains the `n` bytes at `addr`. -/
 def Mem.find (m : Mem) (addr n : Nat) : Option (Region × Nat) :=
   if addr ≥ stackLimit then
-    let i := bsearch (fun i => (m.stack[i]?.map (·.base)).getD 0 ≤ addr) 64 0 m.stack.size
+    let i := bsearchBase m.stack addr true 64 0 m.stack.size
     match m.stack[i]? with
     | some a => if a.base ≤ addr ∧ addr + n ≤ a.base + a.size then some (.stack, i) else none
     | none => none
   else
-    let i := bsearch (fun i => (m.globals[i]?.map (·.base)).getD 0 > addr) 64 0 m.globals.size
+    let i := bsearchBase m.globals addr false 64 0 m.globals.size
     if i = 0 then none else
     match m.globals[i - 1]? with
     | some a => if a.base ≤ addr ∧ addr + n ≤ a.base + a.size then some (.global, i - 1) else none
@@ -534,10 +546,36 @@ def sext (bits : Nat) (v : UInt64) : UInt64 :=
 
 def boolBits (b : Bool) : UInt64 := if b then 1 else 0
 
-def canonNaN64 : UInt64 := 0x7ff8000000000000
-def canonNaN32 : UInt64 := 0x7fc00000
+/-- NaN results follow the x86-64 SSE rules (the reference platform of the differential checks):
+    an operation on a NaN operand returns that operand quieted (the first one if both are NaN); an
+    invalid operation on non-NaN operands (0/0, inf-inf, …) returns the "real indefinite" NaN,
+    whose sign bit is set. -/
+def canonNaN64 : UInt64 := 0xfff8000000000000
+def canonNaN32 : UInt64 := 0xffc00000
 
-/-- Result bits of a `d` computation; NaN results are canonicalised (positive quiet NaN). -/
+def isNaN64 (b : UInt64) : Bool := (b &&& 0x7fffffffffffffff) > 0x7ff0000000000000
+def isNaN32 (b : UInt64) : Bool := (b &&& 0x7fffffff) > 0x7f800000
+
+/-- Result bits of a binary `d` operation with operand bits `a`, `b` and host result `r`. -/
+def dRes (a b : UInt64) (r : Float) : UInt64 :=
+  if isNaN64 a then a ||| 0x0008000000000000
+  else if isNaN64 b then b ||| 0x0008000000000000
+  else if r.isNaN then canonNaN64 else r.toBits
+
+def sRes (a b : UInt64) (r : Float32) : UInt64 :=
+  if isNaN32 a then (a &&& mask32) ||| 0x00400000
+  else if isNaN32 b then (b &&& mask32) ||| 0x00400000
+  else if r.isNaN then canonNaN32 else r.toBits.toUInt64
+
+/-- `exts` / `truncd` of a NaN keep the sign and the upper payload bits. -/
+def extsBits (a : UInt64) : UInt64 :=
+  if isNaN32 a then (((a >>> 31) &&& 1) <<< 63) ||| (0x7ff8000000000000 : UInt64) ||| ((a &&& 0x7fffff) <<< 29)
+  else (Float32.ofBits a.toUInt32).toFloat.toBits
+
+def truncdBits (a : UInt64) : UInt64 :=
+  if isNaN64 a then ((a >>> 63) <<< 31) ||| (0x7fc00000 : UInt64) ||| ((a &&& 0xfffffffffffff) >>> 29)
+  else (Float.ofBits a).toFloat32.toBits.toUInt64
+
 def dBits (f : Float) : UInt64 := if f.isNaN then canonNaN64 else f.toBits
 def sBits (f : Float32) : UInt64 := if f.isNaN then canonNaN32 else f.toBits.toUInt64
 
@@ -625,18 +663,18 @@ def arith2 (o : Op) (k : Cls) (a b : UInt64) : Except OpErr UInt64 :=
   | .s =>
     let x := toF32 a; let y := toF32 b
     match o with
-    | .add => .ok (sBits (x + y))
-    | .sub => .ok (sBits (x - y))
-    | .mul => .ok (sBits (x * y))
-    | .div => .ok (sBits (x / y))
+    | .add => .ok (sRes a b (x + y))
+    | .sub => .ok (sRes a b (x - y))
+    | .mul => .ok (sRes a b (x * y))
+    | .div => .ok (sRes a b (x / y))
     | _ => .error (.mismatch "not a float operation")
   | .d =>
     let x := toF a; let y := toF b
     match o with
-    | .add => .ok (dBits (x + y))
-    | .sub => .ok (dBits (x - y))
-    | .mul => .ok (dBits (x * y))
-    | .div => .ok (dBits (x / y))
+    | .add => .ok (dRes a b (x + y))
+    | .sub => .ok (dRes a b (x - y))
+    | .mul => .ok (dRes a b (x * y))
+    | .div => .ok (dRes a b (x / y))
     | _ => .error (.mismatch "not a float operation")
 
 /-- Truncate 64 result bits to an integer class. -/
@@ -776,12 +814,12 @@ def execOp (o : Op) (k : Option Cls) (vs : List RVal) (mem : Mem) (va : Option B
   | .exts, [a] => do
     let x ← a.asS
     match k with
-    | some .d => pure (⟨.d, dBits (toF32 x).toFloat⟩, mem)
+    | some .d => pure (⟨.d, extsBits x⟩, mem)
     | _ => throw (.mismatch "exts result class")
   | .truncd, [a] => do
     let x ← a.asD
     match k with
-    | some .s => pure (⟨.s, sBits (toF x).toFloat32⟩, mem)
+    | some .s => pure (⟨.s, truncdBits x⟩, mem)
     | _ => throw (.mismatch "truncd result class")
   | .stosi, [a] => do
     let k ← needRes k
